@@ -458,6 +458,11 @@ class SymNum:
     def __divmod__(self, o):
         return (self // o, self % o)
 
+    def __rdivmod__(self, o):
+        if not self._num(o): return NotImplemented
+        o = lift(o)
+        return (o // self, o % self)
+
     def __neg__(self): return SymNum(-self.e, self.isf)
     def __pos__(self): return self
     def __abs__(self): return SymNum(z3.If(self.e < 0, -self.e, self.e), self.isf)
